@@ -38,6 +38,10 @@ def envelope(ctx):
 def run(ctx):
     binary = vlib.build_harness(ctx)
     vlib.design_check(ctx, "agwpe", "Agwpe", "Agwpe_block.cfg")
+    vlib.design_check(ctx, "agwpe", "AgwpeTx", "AgwpeTx_safety.cfg")
+    obs = vlib.tlc(ctx, "agwpe", "AgwpeTx", "AgwpeTx_liveness.cfg")
+    ctx.notes.append("AgwpeTx_liveness.cfg: WriteReturns %s (observation, not part of C13: a TNC that transmits a frame before the next poll is never "
+                     "seen with an outstanding frame)" % ("violated" if obs.error else "holds"))
     dev = vlib.tlc(ctx, "agwpe", "Agwpe", "Agwpe_drop.cfg")
     if dev.violated != "InOrderNoLossNoDup":
         raise vlib.Undecided("the implementation-shaped configuration no longer exhibits DropWhenFull")
@@ -74,6 +78,37 @@ def run(ctx):
                                   {"scenario": r["scen"], "log": r["ev"], "position": ml})
         else:
             ctx.drift.append("SPEC-DRIFT: Agwpe.tla cannot follow the library's debug log of schedule %s at position %d (%s)" % (r["scen"], ml, e))
+    # transmit side: the TNC's view of D frames and Y polls merged with the Write / Flush calls against AgwpeTx.tla
+    tx_rows = []
+    for row in rows:
+        for ev in row["ev"]:
+            if ev["op"] == "TxLog" and ev["log"]:
+                log = []
+                for e in ev["log"]:
+                    if e["k"] == "closeCall":
+                        break
+                    log.append({"op": e["k"], "v": e["v"]})
+                if log and log[0]["op"] == "writeCall" and ev.get("maxframe") == 4:
+                    tx_rows.append({"t": len(tx_rows) + 1, "ev": log, "nw": sum(1 for e in log if e["op"] == "writeCall"), "scen": row["scen"]})
+    tacc = 0
+    if tx_rows:
+        tf = ctx.path("tx.ndjson")
+        vlib.write_ndjson(tf, tx_rows)
+        tacc, trej, _ = vlib.validate_traces(ctx, "agwpe", "AgwpeTxTrace", "AgwpeTxTrace.cfg", tf, len(tx_rows), name="tx")
+        for (tt, tl) in trej:
+            r = tx_rows[tt - 1]
+            e = r["ev"][tl - 1] if 0 < tl <= len(r["ev"]) else {}
+            shown = [(x["op"], x["v"]) for x in r["ev"]][max(0, tl - 6):tl]
+            if e.get("op") == "flushRet":
+                vlib.report_violation(ctx, "C13/flush/before-empty", "Flush returned although the last Y poll was not answered with 0 outstanding frames: ... %s" % shown,
+                                      {"scenario": r["scen"], "log": r["ev"], "position": tl})
+            elif e.get("op") == "D":
+                vlib.report_violation(ctx, "C13/write/window", "a data frame was sent without a Y poll answered with at most MAXFRAME outstanding frames before it: ... %s" % shown,
+                                      {"scenario": r["scen"], "log": r["ev"], "position": tl})
+            else:
+                msg = "SPEC-DRIFT: AgwpeTx.tla cannot follow the transmit log of schedule %s at position %d: ... %s" % (r["scen"], tl, shown)
+                print(msg[:500])
+                ctx.drift.append(msg)
     for (t, l) in rejected:
         row = rows[t - 1]
         sc, ev = row["scen"], row["ev"][l - 1]
@@ -117,6 +152,7 @@ def run(ctx):
         "samples": [rows[0], rows[len(rows) // 2]["scen"]],
         "exhaustive": False,
         "loss_free_envelope_frames": env,
+        "transmit_traces_validated": {"accepted": tacc, "total": len(tx_rows)},
         "mechanism_traces_validated": macc,
         "mechanism_traces_total": len(mech_rows),
         "logged_drops_explained": drops,
